@@ -5,6 +5,7 @@ import (
 	"go/ast"
 	"go/token"
 	"go/types"
+	"golang.org/x/tools/go/cfg"
 	"strings"
 
 	"golang.org/x/tools/go/ssa"
@@ -447,6 +448,53 @@ func checkC15(c *Ctx, r *Report) {
 			})
 			if !inRange || !onParam {
 				viol = "the subtree walk no longer descends unconditionally into every literal child and into the parameter child: registered endpoints below are never candidates"
+			}
+			// unconditionally: on every path through the walk's body both descents are reached,
+			// except past a nil test (of the node, or of the child about to be descended into)
+			if body, ok := walkBody.(*ast.BlockStmt); ok && viol == "" {
+				info := fi.Pkg.TypesInfo
+				nilSkip := func(cond ast.Expr, pol bool) bool {
+					for _, f := range edgeFactsAST(cond, pol) {
+						x, y, isEq := eqOperands(f.Expr)
+						if !isEq {
+							return false
+						}
+						if !(isNilIdent(info, x) || isNilIdent(info, y)) || !f.Pol {
+							return false
+						}
+					}
+					return len(edgeFactsAST(cond, pol)) > 0
+				}
+				g := cfg.New(body, func(*ast.CallExpr) bool { return true })
+				for _, tgt := range []struct {
+					what string
+					is   func(ast.Node) bool
+				}{
+					{"every literal child", func(n ast.Node) bool {
+						rs, ok := n.(*ast.RangeStmt)
+						if !ok {
+							return false
+						}
+						se, ok := rs.X.(*ast.SelectorExpr)
+						return ok && se.Sel.Name == "literalChildren"
+					}},
+					{"the parameter child", func(n ast.Node) bool {
+						cl, ok := n.(*ast.CallExpr)
+						if !ok || !isWalk(cl.Fun) {
+							return false
+						}
+						for _, a := range cl.Args {
+							if se, ok := a.(*ast.SelectorExpr); ok && se.Sel.Name == "paramChild" {
+								return true
+							}
+						}
+						return false
+					}},
+				} {
+					if !bodyMustReach(g, tgt.is, nilSkip) {
+						viol = fmt.Sprintf("the subtree walk can finish without having descended into %s (a path avoids it that is not a nil test): registered endpoints below the skipped children are never candidates", tgt.what)
+					}
+				}
 			}
 		}
 		r.add("C15.b", "each-iteration", cem+":dfs-visits-all-children", "candidate collection walks the whole subtree", []string{cem}, sites, viol)
